@@ -129,9 +129,9 @@ PROPS["C05"] = {
 PROPS["C06"] = {
     "units": ["dbfacade", "scalars", "engine"],
     "kani": [],
-    "level_text": "Proof on Brc20ProgDatabase::set_tx_receipt: after Ok the transaction row, the receipt row, the (block,index)->hash row and the inscription->hash row all carry the same hash, block hash, block number and index; set_block_hash: number->hash and hash->number invert each other; LogED::new_vec: log indexes run contiguously from the start index and every log carries its transaction's hash, index, block hash and number; get_block_tx_count = number of (block,index) rows of the block; add_tx_to_block stores transaction, receipt and trace under get_tx_hash(tx, account nonce) (site precondition) and get_tx_hash is the keccak of sender, nonce, target, data (functional postcondition); eth_getLogs order (C18).",
-    "level_note": COMMON_TRUST + "Narrow. Rule N29 keeps only the index arguments of TxReceiptED::new / TxED::new (the other arguments are revm/alloy values). NOT covered: the running start index and cumulative gas handed to these functions (closure in add_tx_to_block), bloom and merkle root (uninterpreted libraries), raw block encodings (alloy RLP), generate_block / generate_raw_block bodies, `receipt returned is the one later served` (engine closure).",
-    "assumptions": ["N29: constructors reduced to their index arguments", "generate_block / generate_raw_block not under contract"],
+    "level_text": "Proof on Brc20ProgDatabase::set_tx_receipt: after Ok the transaction row, the receipt row, the (block,index)->hash row and the inscription->hash row all carry the same hash, block hash, block number and index; set_block_hash: number->hash and hash->number invert each other; LogED::new_vec: log indexes run contiguously from the start index and every log carries its transaction's hash, index, block hash and number; get_block_tx_count = number of (block,index) rows of the block; generate_block on its real body: the block lists exactly the transaction hashes recorded under (block, 0), (block, 1), .. in index order, its count field is their number, it carries the number and hash it was generated for, its parent is the recorded hash of the previous block (zero for block 0) and a missing parent is an error; add_tx_to_block stores transaction, receipt and trace under get_tx_hash(tx, account nonce) (site precondition) and get_tx_hash is the keccak of sender, nonce, target, data (functional postcondition); eth_getLogs order (C18).",
+    "level_note": COMMON_TRUST + "Narrow. Rule N29 keeps only the index arguments of TxReceiptED::new / TxED::new (the other arguments are revm/alloy values). NOT covered: the running start index and cumulative gas handed to these functions (closure in add_tx_to_block), bloom and merkle root (dropped from generate_block by N13: uninterpreted libraries), raw block encodings (alloy RLP), the generate_raw_block body, `receipt returned is the one later served` (engine closure).",
+    "assumptions": ["N29: constructors reduced to their index arguments; BlockResponseED::new assumed to store hash / count / number / transactions / parent hash in the fields of that name", "generate_raw_block not under contract", "U128ED compares as its encoding does (Kani u128ed_order)"],
 }
 PROPS["C08"] = {
     "units": ["engine", "dbfacade", "rawtx"],
